@@ -33,3 +33,14 @@
 (declare-fun json.pNumAt ((Array Int Int) Str Int) Int)           ; element of a number array
 (declare-fun json.pRowLen ((Array Int Int) Str Int) Int)          ; length of a row of a 2-d string array
 (declare-fun json.pStrAt2 ((Array Int Int) Str Int Int) Str)      ; element of a 2-d string array
+
+; ---- gnark back end: uninterpreted names for "the object this library call returns for these inputs" ----
+(declare-fun gnark.compiledIns (Int Int) Int)
+(declare-fun gnark.compiledDel (Int Int) Int)
+(declare-fun gnark.setupPK (Int) Int)
+(declare-fun gnark.setupVK (Int) Int)
+(declare-fun gnark.pubWitness (Int) Int)
+(declare-fun gnark.fullWitness (Int Int Int Int (Array Int Int) Int (Array Int (Array Int Int)) (Array Int Int) Int) Int)
+(declare-fun gnark.fullWitnessDel (Int (Array Int Int) Int Int Int (Array Int Int) Int (Array Int (Array Int Int)) (Array Int Int) Int) Int)
+(declare-fun gnark.proveOut (Int Int Int) Int)
+(declare-fun gnark.verifyOut (Int Int Int) Int)
